@@ -460,7 +460,7 @@ def swap_case(inp):
 
 
 @S.item("insert_qubit.every_position", site=f"{CL}:insert_qubit", exhaustive=True,
-        bound="all 11520 two-qubit tableaux x new_position in {0,1,2}, add_qubit; then a second insertion at every position",
+        bound="all 11520 two-qubit tableaux x new_position in {0,1,2}, add_qubit; plus one chain of three insertions at hashed positions",
         clause="inserting a qubit adds an unentangled |0> at the requested position")
 def insert_case(inp):
     tab, ph = inp
@@ -490,11 +490,11 @@ def remove_case(inp):
     return None
 
 
-S.item("remove_qubit.unentangled", site=f"{CL}:remove_qubit", exhaustive=True,
+S.item("remove_qubit.unentangled", site=f"{CL}:remove_qubit", exhaustive=False,
        bound="all (two-qubit tableau, qubit) with the qubit unentangled x 3 modes; plus 3- and 4-qubit product tableaux in "
              "mixed presentations (sampled)",
        clause="removing an unentangled qubit leaves the state of the others unchanged")(remove_case)
-S.item("remove_qubit.entangled_measure_and_remove", site=f"{CL}:remove_qubit", exhaustive=True,
+S.item("remove_qubit.entangled_measure_and_remove", site=f"{CL}:remove_qubit", exhaustive=False,
        bound="all (two-qubit tableau, qubit) with the qubit entangled x 3 modes; plus sampled 3-4 qubit tableaux",
        clause="removal of an entangled qubit = Z measurement (forced outcome if random) followed by removal; valid")(remove_case)
 
@@ -877,11 +877,12 @@ def run(tier, seed):
     S.map("gates.stabilizer_tableau", sub(4), nontrivial=_nontrivial_signs)
     S.map("z_measurement_gate.outcome_state_flag", every, nontrivial=_nontrivial_signs)
     S.map("reset.xyz", sub(4), nontrivial=_nontrivial_signs)
-    S.map("swap_gate.semantics", every, nontrivial=_nontrivial_signs)
-    S.map("insert_qubit.every_position", every, nontrivial=_nontrivial_signs)
+    S.map("swap_gate.semantics", sub(2), nontrivial=_nontrivial_signs)
+    S.map("insert_qubit.every_position", sub(2), nontrivial=_nontrivial_signs)
     S.map("CliffordTableau.construct_copy_to_stabilizer", sub(4), nontrivial=_nontrivial_signs)
     if not thorough:
-        for nm in ("gates.stabilizer_tableau", "reset.xyz", "CliffordTableau.construct_copy_to_stabilizer"):
+        for nm in ("gates.stabilizer_tableau", "reset.xyz", "CliffordTableau.construct_copy_to_stabilizer", "swap_gate.semantics",
+                   "insert_qubit.every_position"):
             S.items[nm].exhaustive = False
             S.items[nm].bound += " [quick tier: deterministic 1/k subsample of the two-qubit tableaux]"
 
